@@ -241,7 +241,7 @@ PROPS = {
         functions=[RF + 'LinearFixedRFA.rfa', RF + 'PiecewiseConstantRFA.rfa', 'lemma:rfa.linear_fixed.equivariance_y', 'lemma:rfa.linear_fixed.equivariance_x',
                    'lemma:rfa.linear_fixed.locality', RF + 'ExpFixedRFA.rfa', 'lemma:rfa.exp_fixed.locality', 'lemma:rfa.exp_fixed.equivariance_y', 'lemma:rfa.exp_fixed.equivariance_x', RF + 'LinearAdaptiveRFA.rfa',
                    'lemma:rfa.linear_adaptive.locality', 'lemma:rfa.linear_adaptive.equivariance_y', 'lemma:rfa.linear_adaptive.equivariance_x', RF + 'ExpAdaptiveRFA.rfa',
-                   'lemma:rfa.exp_adaptive.locality', 'lemma:rfa.exp_adaptive.equivariance_y',
+                   'lemma:rfa.exp_adaptive.locality', 'lemma:rfa.exp_adaptive.equivariance_y', 'lemma:rfa.exp_adaptive.equivariance_x',
                    RF + 'LinearAdaptiveRFA.get_adaptive_transition_points'],
         level='proof',
         explanation=("PROVED for LinearFixedRFA (relational lemmas over the closed form the code is proved to compute, two strategy "
@@ -250,11 +250,11 @@ PROPS = {
                      "interval's and the two adjacent averages; ExpFixedRFA: locality, change of units x -> c*x+d (c > 0; the pieces read the abscissae through ratios only) and y -> al*y+be for all real al, be and every exponent "
                      "(the blends are affine in their end values with weights summing to one; powers are atoms because the abscissae do not change); LinearAdaptiveRFA: change of units x -> c*x+d (c > 0) and y -> al*y+be for every real "
                      "al != 0 (intervals with two neighbours on each side) and locality with two neighbours; ExpAdaptiveRFA: locality with two "
-                     "neighbours and change of units y -> al*y+be (al != 0, two neighbours on each side); adaptive windows are computed from absolute jumps with exact zero tests only. PiecewiseConstantRFA: values are "
+                     "neighbours and change of units x -> c*x+d (c > 0) and y -> al*y+be (al != 0), both on intervals with two neighbours on each side; adaptive windows are computed from absolute jumps with exact zero tests only. PiecewiseConstantRFA: values are "
                      "the averages themselves. BOUNDED "
-                     "(run-time metamorphic monitoring with exactly representable maps, one-average perturbations) for the other "
-                     "strategies."),
-        assumptions=[A_REAL, A_LEN, "non-negativity of the weights is the C05 bounds lemma; other strategies: bounded run-time monitoring only"],
+                     "(run-time metamorphic monitoring with exactly representable maps, one-average perturbations): CubicSplineRFA, and the "
+                     "first / last two intervals of the adaptive strategies."),
+        assumptions=[A_REAL, A_LEN, "non-negativity of the weights is the C05 bounds lemma; CubicSplineRFA and the boundary intervals of the adaptive strategies (fewer than two neighbours on one side): bounded run-time monitoring only"],
     ),
     'C08': dict(
         monitor_quick=WEAVER_MUTATORS,
